@@ -162,4 +162,72 @@ def r5_whitespace_notion(ctx):
             ctx.ob("R5", "is_whitespace", valueset(b) == {9, 10, 13, 32}, "XML whitespace = {tab, LF, CR, space}", config=cfg)
 
 
-RULES = [("R1", r1_same_macros), ("R2", r2_contract), ("R3", r3_carry), ("R4", r4_split), ("R5", r5_whitespace_notion)]
+def _uncast(t):
+    t = strip_wrappers(t)
+    while t[0] == "cast":
+        t = strip_wrappers(t[1])
+    return t
+
+
+def r6_stream(ctx):
+    """Reader::stream(): the raw stream moves buffer_position by exactly what it hands out, in every sibling
+    (Read::read, BufRead::consume, AsyncRead::poll_read, AsyncBufRead::consume), so that positions after a raw read
+    do not depend on how the source cut the bytes into polls."""
+    for cfg, F in ctx.facts.items():
+        n = 0
+        for b in F.bodies:
+            bp = strip_generics(b.path)
+            if "BinaryStream" not in bp or bp.split("::")[-1] not in ("read", "consume", "poll_read"):
+                continue
+            kind = bp.split("::")[-1]
+            site = "BinaryStream:%s%s" % ("async:" if "async_tokio" in bp or "tokio" in bp else "", kind)
+            for p in ctx.paths(b):
+                if ends(p) != "ret":
+                    continue
+                order = {e[1]: i for i, e in enumerate(p) if e[0] == "call"}
+                stores = [e for e in p if e[0] == "store" and ends_with_fields(e[2], "offset")]
+                inner = [e for e in p if e[0] == "call" and name_is(e[2], kind) and e[3] and has_subterm(e[3][0], lambda s: s[0] == "pl" and ends_with_fields(s, "inner"))]
+                ctx.ob("R6", site + ":forwards", len(inner) == 1, "the call is forwarded to the wrapped reader exactly once", config=cfg)
+                if len(inner) != 1:
+                    continue
+                ic = inner[0]
+                amounts = []
+                for e in stores:
+                    v = e[3]
+                    amounts.append(_uncast(v[3]) if v[0] == "bin" and v[1] == "Add" and strip_wrappers(v[2]) == strip_wrappers(e[2]) else None)
+                if kind == "consume":
+                    ok = len(amounts) == 1 and amounts[0] is not None and amounts[0][0] == "arg" and amounts[0][1] == 2 and len(ic[3]) > 1 and _uncast(ic[3][1]) == amounts[0]
+                    n += 1
+                    ctx.ob("R6", site + ":amount", ok, "consume(amt) forwards amt and adds exactly amt to the position; adds %s" % [sym.show(a, 3) if a else a for a in amounts], config=cfg)
+                elif kind == "read":
+                    r = ret_of(p)
+                    isok = r is not None and describe_ret(r, 0)[0][:1] == ("Ok",)
+                    if isok:
+                        got = _uncast(r[3][0]) if r[0] == "agg" else None
+                        ok = len(amounts) == 1 and amounts[0] is not None and amounts[0] == got and tried(got) is not None and strip_wrappers(tried(got))[1] == ic[1]
+                        n += 1
+                        ctx.ob("R6", site + ":amount", ok, "read() adds exactly the count the wrapped reader reported, and returns it; adds %s" % [sym.show(a, 3) if a else a for a in amounts], config=cfg)
+                    else:
+                        ctx.ob("R6", site + ":error", not stores, "a failed read moves nothing", config=cfg)
+                else:
+                    neg = any(e[0] == "switch" and e[3] != 0 and has_subterm(e[2], lambda s: s[0] == "call" and s[1] == ic[1]) for e in p)
+                    def delta(a):
+                        if a is None or a[0] != "bin" or a[1] != "Sub":
+                            return False
+                        x, y = _uncast(a[2]), _uncast(a[3])
+                        if call_is(x, "remaining") and call_is(y, "remaining"):
+                            return order.get(x[1], 1 << 30) < order[ic[1]] < order.get(y[1], -1)
+                        if call_is(x, "len") and call_is(y, "len"):
+                            fx, fy = _uncast(x[3][0]), _uncast(y[3][0])
+                            fx = fx[1] if fx[0] == "ref" else fx
+                            fy = fy[1] if fy[0] == "ref" else fy
+                            return call_is(fx, "filled") and call_is(fy, "filled") and order.get(fy[1], 1 << 30) < order[ic[1]] < order.get(fx[1], -1)
+                        return False
+                    if stores or not neg:
+                        n += 1
+                        ctx.ob("R6", site + ":amount", len(amounts) == 1 and delta(amounts[0]),
+                               "poll_read adds exactly the bytes this poll put into the caller's buffer (space or fill measured before and after the wrapped poll); adds %s" % [sym.show(a, 3) if a else a for a in amounts], config=cfg)
+        ctx.floor("R6", "raw-stream position updates", n, 4 if cfg in ("F_all",) else 2, config=cfg)
+
+
+RULES = [("R1", r1_same_macros), ("R2", r2_contract), ("R3", r3_carry), ("R4", r4_split), ("R5", r5_whitespace_notion), ("R6", r6_stream)]
